@@ -260,8 +260,8 @@ def queries_for(pid):
                 ('size - 1, size + 1, (size + 1) * 2, size + 1 * 2 from R0', lambda v, k: _rows(v, [lambda i: S[i] - 1, lambda i: S[i] + 1, lambda i: (S[i] + 1) * 2, lambda i: S[i] + 2]), False),
                 ('name from R0 where size % 7 = 0 and size / 7 >= 1', lambda v, k: _rows([i for i in v if S[i] % 7 == 0 and S[i] / 7 >= 1], [name]), False)]
     if pid == 'C16':
-        return [("substr(name, 2), substr(name, -2), least(4, 2), least(4, -2) from R0",
-                 lambda v, k: _rows(v, [lambda i: N[i][1:], lambda i: N[i][-2:], lambda i: 2, lambda i: -2]), False),
+        return [("substr(name, 1), substr(name, -1), least(4, 2), least(4, -2) from R0",       # calls that differ only in the sign of a literal argument
+                 lambda v, k: _rows(v, [lambda i: N[i], lambda i: N[i][-1:], lambda i: 2, lambda i: -2]), False),
                 ("upper(name), length(name), substr(name, 2, 2), concat(name, '-', size) from R0",
                  lambda v, k: _rows(v, [lambda i: N[i].upper(), lambda i: len(N[i]), lambda i: N[i][1:3], lambda i: N[i] + '-' + str(S[i])]), False),
                 ("name, coalesce('', name), lower(upper(name)), substr(name, -1) from R0 where length(name) >= 2",
